@@ -1,5 +1,6 @@
 pub mod core;
 mod exec;
+pub mod fuzz_api;
 mod vgen;
 mod props_server;
 mod vserver;
@@ -52,6 +53,12 @@ pub fn main_entry() {
     let args: Vec<String> = std::env::args().collect();
     if args.len() < 2 {
         usage();
+    }
+    if args[1] == "fuzz-seeds" {
+        let dir = args.get(2).cloned().unwrap_or_else(|| "/verif/fuzzing/seeds".into());
+        println!("{} seed files written to {dir}", fuzz_api::write_seeds(&dir));
+        core::cleanup_scratch();
+        return;
     }
     let id = args[1].to_uppercase();
     let mut tier = match std::env::var("VERIF_TIER").as_deref() {
@@ -141,6 +148,34 @@ pub fn main_entry() {
 }
 
 fn replay_one(id: &str, path: &str) -> i32 {
+    // a raw libFuzzer artifact / corpus file (not one of the JSON replay files)?
+    if matches!(id, "C04" | "C07" | "C20" | "C21") {
+        if let Ok(bytes) = std::fs::read(path) {
+            if serde_json::from_slice::<core::ReplayFile>(&bytes).is_err() {
+                return match fuzz_api::replay_raw(id, &bytes) {
+                    Ok(()) => {
+                        println!("replay {path}: property held");
+                        0
+                    }
+                    Err(f) => {
+                        // the oracle of the fuzz target prefixes the property's own signature
+                        let inner = f.sig.split("oracle: ").nth(1).map(|x| x.split(" | ").next().unwrap_or(x).to_string());
+                        if std::env::var("VERIF_REPLAY_TOLERATE_KNOWN").is_ok() {
+                            let known = core::KnownFindings::load().for_property(id);
+                            if let Some(k) = known.iter().find(|k| Some(&k.signature) == inner.as_ref() || f.sig.contains(&k.signature) || f.detail.contains(&k.signature)) {
+                                println!("KNOWN-FINDING: property={id} {}", k.text);
+                                return 0;
+                            }
+                        }
+                        println!("VIOLATION property={id} replay={path}");
+                        println!("  signature: {}", f.sig);
+                        println!("  detail: {}", core::truncate(&f.detail, 3000));
+                        1
+                    }
+                };
+            }
+        }
+    }
     match id {
         "C08" | "C09" | "C10" | "C11" => props_db::replay(path),
         "C01" => props_storage::c01_replay(path),
